@@ -241,6 +241,9 @@ class WT:
             return ('coord', v, e.attr)
         if isinstance(v, tuple) and v[0] == 'global':
             return ('global', v[1] + '.' + e.attr)
+        if e.attr in ('shape', 'ndim', 'size'):
+            while isinstance(v, tuple) and v and v[0] == 'cast':
+                v = v[1]            # a dtype conversion keeps the shape
         if e.attr == 'shape' and self.two_d is not None and self.two_d(v):
             return ('tuple', (('index', ('attr', v, 'shape'), ('const', 0)), ('index', ('attr', v, 'shape'), ('const', 1))))
         return ('attr', v, e.attr)
